@@ -1,0 +1,42 @@
+//go:build verif
+
+package transport_controller
+
+import (
+	"github.com/aperturerobotics/bifrost/link"
+	"github.com/aperturerobotics/bifrost/peer"
+)
+
+// VerifLinkTables is a copy of the controller's link tables.
+type VerifLinkTables struct {
+	// PeerID is c.peerID
+	PeerID peer.ID
+	// Links is c.links (uuid -> link)
+	Links map[uint64]link.Link
+	// LinksByPeerID is c.linksByPeerID
+	LinksByPeerID map[peer.ID][]link.Link
+}
+
+// VerifSnapshotLinks copies the link tables while holding the controller lock.
+//
+// Only built with the verif tag: read-only accessor for the verification harness.
+func (c *Controller) VerifSnapshotLinks() *VerifLinkTables {
+	out := &VerifLinkTables{
+		Links:         make(map[uint64]link.Link),
+		LinksByPeerID: make(map[peer.ID][]link.Link),
+	}
+	c.bcast.HoldLock(func(broadcast func(), getWaitCh func() <-chan struct{}) {
+		out.PeerID = c.peerID
+		for k, el := range c.links {
+			out.Links[k] = el.lnk
+		}
+		for k, els := range c.linksByPeerID {
+			lnks := make([]link.Link, len(els))
+			for i, el := range els {
+				lnks[i] = el.lnk
+			}
+			out.LinksByPeerID[k] = lnks
+		}
+	})
+	return out
+}
